@@ -134,7 +134,15 @@ def check(case):
     def get_trace():
         nonlocal trace
         if trace is None:
-            trace, _ = build.trace(build.calculator({"max_calc_step_size_feet": h}), build.shot(spec), R)
+            tsh = build.shot(spec)
+            atmo_c, _ = build.counting(tsh.atmo)
+            trace, _ = build.trace(build.calculator({"max_calc_step_size_feet": h}), tsh, R)
+            # the trace is itself a time-step request (1e-12 s), so it must not be trusted blindly as "every integration
+            # step": the number of steps is counted independently (one atmosphere look-up per step), and by the very
+            # clause under test (gap <= time_step + two steps) at least every other step has to be there
+            if len(trace) < atmo_c._vf_calls / 2.0 - 5:
+                r.bad("C03:time-step-gap:tiny-time-step", f"a request with time_step 1e-12 s returned {len(trace)} rows for "
+                      f"{atmo_c._vf_calls} integration steps: successive rows are more than two steps apart")
         return trace
 
     # 3. muzzle row
